@@ -75,7 +75,7 @@ def main():
     """subprocess entry: argv[1] = json {scenario|history, seed, workers, delay_seed, work}"""
     spec = json.loads(sys.argv[1])
     from . import common, scenarios
-    common.import_repo()
+    common.import_repo(scratch=spec["work"])
     N[0] = spec["workers"]
     SEED[0] = spec["delay_seed"]
     install()
